@@ -874,6 +874,16 @@ var scaleTpls = []scaleTpl{
 	{"nested literals of a generic record", 8, func(n int) string {
 		return "type B<T> = {V: T}\n\nlet f () =\n  " + rep("{V=", n) + "1" + rep("}", n) + "\n"
 	}},
+	// doubles with every level as well (known finding D27): a record type reached along 2^n paths
+	{"chain of records each mentioning the next one twice", 10, func(n int) string {
+		var sb strings.Builder
+		fmt.Fprintf(&sb, "type R%d = {x: int}\n\n", n)
+		for i := n - 1; i >= 0; i-- {
+			fmt.Fprintf(&sb, "type R%d = {a: R%d; b: R%d}\n\n", i, i+1, i+1)
+		}
+		sb.WriteString("let f (r:R0) = r\n")
+		return sb.String()
+	}},
 	{"many files' worth of package_info entries", 5000, func(n int) string {
 		var sb strings.Builder
 		sb.WriteString("package_info ext =\n")
